@@ -28,11 +28,18 @@ THEOREMS = [
     "Ural.Props.C09.tok_upper",
     "Ural.Props.C09.tok_lower",
     "Ural.Props.C09.tok_punycode_unicode",
+    "Ural.Props.C09.iter_url_nodup",
+    "Ural.HostnameTrieSet.joinHostname_injective",
+    "Ural.HostnameTrieSet.tok_dot_free",
+    "Ural.Props.C09.match_needs_first_token",
+    "Ural.Props.C09.tok_trailing_dot",
+    "Ural.Props.C09.match_url_trailing_dot",
     "Ural.Props.C09.punyLaws_demo",
     "Ural.Props.C09.match_url_via_host",
     "Ural.Props.C09.match_url_of_parts",
     "Ural.Props.C09.match_url_string_spec",
     "Ural.Props.C09.match_url_invariance",
+    "Ural.Props.C09.match_url_nfkc_rejected",
 ]
 TABLE_OBLIGATIONS = []
 RULE = (
@@ -59,17 +66,30 @@ EXHAUSTIVE = {
 TRUSTED = [
     "Lean 4 kernel; axioms of every listed theorem audited to be within {propext, Classical.choice, Quot.sound}",
     "hand-written Lean models UralModel/Model/TrieDict.lean (set_and_prune_if_shorter, longest_matching_prefix_value, prefixes, __len__) and UralModel/Model/HostnameTrieSet.lean (tokenize_hostname, join_hostname, add, match, __len__, __iter__), tied to the code by differential execution of whole histories (this run)",
-    "safe_urlsplit(url).hostname (PROTOCOL_RE + CPython urllib.parse.urlsplit + SplitResult.hostname) is the shared Lean parser model (Py/UrlSplit.lean, Py/UrlAccessors.lean, Model/TldUrl.lean): the model's match receives the URL STRING and parses it itself (HostnameTrieSet.matchUrl), the hostnames it extracts are compared with the real parser's on every case; the parser model is compared with CPython, not proved equal to it; strings outside its stated domain (a non-ASCII character that str.lower changes, the NFKC check) fall back to the hostname computed by the real parser; the oracle obtains the hostname independently with urllib.parse.urlsplit",
-    "attempt_to_decode_idna (CPython idna codec) is an abstract parameter `puny` of the model; the driver uses the table of the real codec's answers on the labels of the case; the one law the theorems assume (PunyLaws.decoded: the result is the input or no longer starts with xn--) is evaluated by the model on that table on every case and must be true",
+    "safe_urlsplit(url).hostname (PROTOCOL_RE + CPython urllib.parse.urlsplit + SplitResult.hostname) is the shared Lean parser model (Py/UrlSplit.lean, Py/UrlAccessors.lean, Model/TldUrl.lean): the model's match receives the URL STRING and parses it itself (HostnameTrieSet.matchUrl), the hostnames it extracts are compared with the real parser's on every case; the parser model is compared with CPython, not proved equal to it; strings outside its stated domain (a non-ASCII character that str.lower changes) fall back to the hostname computed by the real parser; the NFKC check of urlsplit is modelled (TldUrl.nfkcRejects over a table observed on the running urlsplit, design.d/C08.md) and match passes the ValueError on; the oracle obtains the hostname independently with urllib.parse.urlsplit",
+    "attempt_to_decode_idna (CPython idna codec) is an abstract parameter `puny` of the model; the driver uses the table of the real codec's answers on the labels of the case; the three laws the theorems assume (HostnameTrieSet.PunyLaws: decoded — the result is the input or no longer starts with xn--; no_dot — no dot is brought into a dot-free label; clean — a dot-free, space-free, ASCII-lower-case label decodes to such a label) are evaluated by the model on that table on every case (\"laws\": true expected) and by harness/punylaws.py (group HostTok, run_obligations) on the real decoder over the whole enumerated ACE label class on every run",
     "is_special_host is an abstract parameter `special` (table from the real function); the property excludes special hosts (IP literals, localhost), generators never produce them",
     "str.strip / str.lower are modelled exactly on ASCII and on the 29 isspace code points; non-ASCII letters in the generators are lower-case already (lower() is the identity on them)",
-    "Python dict insertion order and the explicit-stack traversal order are not modelled: iteration is compared as a sorted list (so duplicates would still be seen)",
+    "iteration order: TrieDict.prefixes() is modelled as the explicit-stack loop it is (dict insertion order = association-list order; the model reproduces Python's order — checked once, 0 disagreements in order over the quick stream) but the order is not part of the contract: iteration is compared as a sorted list (so duplicates would still be seen); the theorems state permutations / Nodup",
 ]
 ASSUMPTIONS = [
-    "hostnames are ordinary: no IP literal, no localhost, no trailing dot, no empty label (documented as undefined behaviour by the class)",
+    "hostnames are ordinary: no IP literal, no localhost (documented as undefined behaviour by the class), and — the property's quantifier: labels over an alphabet — no trailing dot, no empty label. What the code does with those is STATED, not excluded silently (tok_trailing_dot, match_needs_first_token, match_url_trailing_dot): labels are compared as they are, the empty ones included; 'a.b.' tokenises to ['', 'b', 'a'] and is covered only by adds spelled with the trailing dot (and vice versa). The oracle does not ask for either behaviour (generators never produce such hosts)",
     "non-ASCII labels are lower-case, NFKC/nameprep-stable (the oracle identifies a Unicode label with its IDNA ASCII form computed by str.encode('idna'))",
 ]
 UNPROVED = ""
+
+RUN_OBLIGATION_GROUPS = ("HostTok",)
+RUN_OBLIGATIONS = (
+    "HostnameTrieSet.PunyLaws (decoded, no_dot, clean: Lemmas/HostTok.lean) of the real label decoder over the enumerated ACE label "
+    "class of harness/punylaws.py"
+)
+
+
+def run_obligations(tier):
+    import punylaws
+
+    return punylaws.run_obligations(RUN_OBLIGATION_GROUPS, tier)
+
 
 AB = ["a", "b"]
 
@@ -125,6 +145,10 @@ TQ_SHAPES = [
     "http://u@%s:80@/", "//%s//x", "a" * 65 + "://%s", "a" * 64 + "://%s", "http:%s", "http:/%s", "http://%s%%zone/",
     "HTTP://[::1]:80@%s/", "http://[::1]/%s", "http://1.2.3.4/%s", "localhost/%s", "http://[v1.%s]/", "\t%s", "@%s", "%s@",
     "http://u:p@w@%s:99999/x", "http://%s:8a/", "%s:", ":%s", "http://%s.:80/", "x://%s", "1http://%s", "http://[::1]%s/",
+    # the NFKC check of urlsplit (_checknetloc): fullwidth solidus / colon / commercial at, a/c, in host, userinfo, port; and
+    # behind the authority, where it is not applied
+    "http://x\uff0f%s/", "http://\uff1a%s", "u\uff20%s", "http://\u2100.%s/p", "http://%s:8\ufe55/", "http://%s/\uff0f?\uff1f#\uff03",
+    "http://\uff41.%s/",
 ]
 
 
@@ -306,8 +330,9 @@ def outside_model(url):
 
     try:
         r = safe_urlsplit(url)
-    except ValueError as e:
-        return "nfkc-check" if "NFKC" in str(e) else None
+    except ValueError:
+        # bracket checks and the NFKC check of urlsplit are both modelled (TldUrl.nfkcRejects): inside the model
+        return None
     nl = r.netloc
     if not nl.isascii():
         hi = nl.rpartition("@")[2]
@@ -442,6 +467,7 @@ def impl(case):
 def canon(op, out):
     if not isinstance(out, dict) or "states" not in out:
         return out
+    # the order of iteration is not part of the contract (a re-ordered traversal is a harmless edit): multisets
     sts = []
     for s in out["states"]:
         if isinstance(s, dict) and isinstance(s.get("iter"), list):
